@@ -305,7 +305,8 @@ func WrapDnsResponseTxt(msg *dns.Msg, data []byte, domain string) error {
 			data = data[0:0]
 		}
 
-		txtData = append(txtData, string(d))
+		// TXT strings are in presentation format: a literal backslash has to be escaped
+		txtData = append(txtData, strings.ReplaceAll(string(d), "\\", "\\\\"))
 
 		// Limit answer to 250 strings
 		if len(txtData) == 250 {
@@ -402,6 +403,29 @@ func WrapDnsResponseNull(msg *dns.Msg, data []byte, domain string) error {
 	return nil
 }
 
+// unescape reverses the presentation-format escaping (\\DDD and \\X) which DNS wire decoding applies to TXT
+// strings and domain names. If dropDots is set, unescaped dots (label separators) are removed as well.
+func unescape(s string, dropDots bool) []byte {
+	isDigit := func(b byte) bool { return b >= '0' && b <= '9' }
+	res := make([]byte, 0, len(s))
+	for i := 0; i < len(s); i++ {
+		c := s[i]
+		switch {
+		case c == '.' && dropDots:
+			// label separator
+		case c != '\\' || i+1 == len(s):
+			res = append(res, c)
+		case i+3 < len(s) && isDigit(s[i+1]) && isDigit(s[i+2]) && isDigit(s[i+3]):
+			res = append(res, byte(int(s[i+1]-'0')*100+int(s[i+2]-'0')*10+int(s[i+3]-'0')))
+			i += 3
+		default:
+			res = append(res, s[i+1])
+			i++
+		}
+	}
+	return res
+}
+
 // UnwrapDnsResponse will decode the DNS message and return the bytes in the response
 func UnwrapDnsResponse(q *dns.Msg, domain string) []byte {
 	resp := make([]byte, 0)
@@ -434,26 +458,23 @@ func UnwrapDnsResponse(q *dns.Msg, domain string) []byte {
 			}
 		case *dns.TXT:
 			if d := strings.Join(v.Txt, ""); len(d) >= 2 {
-				resp = append(resp, []byte(d[2:])...)
+				resp = append(resp, unescape(d[2:], false)...)
 			}
 		case *dns.MX:
 			// Nothing to remove, Preference takes care of it
 			if data, ok := stripDomain(v.Mx); ok {
-				data = Undotify(data) // Remove dots
-				resp = append(resp, data...)
+				resp = append(resp, unescape(data, true)...) // Remove dots and escapes
 			}
 		case *dns.SRV:
 			// Nothing to remove, Priority takes care of it
 			if data, ok := stripDomain(v.Target); ok {
-				data = Undotify(data) // Remove dots
-				resp = append(resp, data...)
+				resp = append(resp, unescape(data, true)...) // Remove dots and escapes
 			}
 		case *dns.CNAME:
 			if len(v.Target) >= 2 {
 				// Remove first two characters
 				if data, ok := stripDomain(v.Target[2:]); ok {
-					data = Undotify(data) // Remove dots
-					resp = append(resp, data...)
+					resp = append(resp, unescape(data, true)...) // Remove dots and escapes
 				}
 			}
 		case *dns.AAAA:
